@@ -90,13 +90,22 @@ class UserAction(Contract):
             return [W.tracks, Sym(node), attrs], {}
         raise NotImplementedError(n)
 
+    def assume_requires(self, I, W):
+        """documented preconditions on argument *types* (not on the state)"""
+        if self.name == "UserAddNode":
+            has, at = C.dict_view(self.attrs)
+            K = W.K
+            I.ctx.assume(AND(IMP(has(K.tk), is_VInt(at(K.tk))), IMP(has(K.trk), is_VInt(at(K.trk))),
+                             IMP(has(K.lk), OR(is_VInt(at(K.lk)), is_VNone(at(K.lk))))))
+
     def run(self, I, cfg):
         ctx = I.ctx
-        W = C.world(I, has_seg=cfg.get("seg", False), lineage=True, inv=cfg.get("inv", ("forest", "trackids", "b1", "b2")))
+        W = C.world(I, has_seg=cfg.get("seg", False), lineage=True, inv=cfg.get("inv", ("forest", "trackids", "b1", "b2", "segfacts")))
         C.install_callsite_contracts(I, W)
         P.install_loopspecs(I, W)
         P.install_prim_contracts(I, W)
         args, kw = self.make_args(I, W, cfg)
+        self.assume_requires(I, W)
         out = construct(I, CLASSES[self.name], args, kw)
         self.check(I, W, out)
         return out
